@@ -30,7 +30,7 @@ func (check) Cases(tier string) int {
 }
 
 func (check) Rule() string {
-	return "(1) worlds of 1-6 settings (top-level and nested under s.) whose strings are expression trees of depth <= 3 (quick) / 5 over literals (incl. $ } : and blanks, with $ and } at the start, in the middle and at the END of a literal, so escape sequences sit at every position of a string including its last two characters; outside ${} a } is spelled } or $} at random, the respelled text being merged later), references (also with computed names), default/alternative/error operators and escapes, plus typed plain settings (int, uint, float, bool, object, list); every referenced name is placed on a random subset of the layers root / 0-2 Env configs / 0-2 resolvers (incl. zero resolvers), each layer's value naming the layer; the root is built by one merge or by several merges in random order with values overwritten later (late binding). Every expression setting is read through String(), Unpack into interface{} and string fields, and (nested ones) a Child handle, and compared with the model evaluator; resolver call order is monitored. (2) forests (forest.go): 3-6 small source configurations and 1-3 trees over 8 totally ordered names (2 plain values naming their tree, 6 expressions over the names before them, so no cycles); every tree is assembled by 2-6 merges in random order of Go data, of source configurations and of trees built earlier (Merge of a *Config: the same expression gets copied into several trees, in which the names it refers to have different values or are missing), 0-2 resolvers; every tree is read in turn with all the other trees as Env configurations: each setting through String(), Unpack into interface{} / string fields, a Child handle, and the whole tree through one Unpack into a map, compared with an evaluator that expands every expression against the tree it lives in, then the Env configurations most recently added first, then the resolvers. (3) expansion results are data (data.go): one setting built from a template (comma list, bracket list, nested list, object, object of list, plain text, bare) around a carrier that brings a marker text such as ${x}, ${x:oops}, ${x:+oops}, ${x:?oops} (alone or inside a text that is a list itself) into the RESULT of the expansion: an escape in the setting itself, a plain string of the tree, a setting whose own expansion yields the marker, an Env value (Env built without VarExp), a resolver answer under Noop/Env/DefaultConfig; x is defined (canary) or undefined; with or without an extra empty reference that makes the setting a string with expansions. Expected = the resulting text (known by construction) after the documented text->value step (parse.ValueWithConfig); read whole (Unpack into interface{}, whole configuration into a map) and element by element (String with idx, String with a path below the setting). (4) lookup order for names of 2-4 segments (pathblock.go): tree / 0-2 Env / 0-2 resolvers, every layer defines the name (value names the layer), holds a non-object (int, string, bool, float, reference to an int) at a proper prefix of the name, or nothing; read through ${n}, pre-${n}, ${n:d}, ${n:+a}, ${n:?m}, ${${nm}}; expected = the first layer in lookup order that defines the name, a layer with a non-object on the path does not define it. Round 4: in (1) one world in three also holds 1-2 expressions nested 1-60 levels below the root (dp.n.n...n.vJ), each with a twin holding the same expression at the top level (read through String, Unpack and a Child handle half way down, and compared with the twin), and every resolver of (1), (2) and (4) answers unknown names either with ErrMissing or with an error of its own (the older resolvers are asked all the same); in (2) every third tree ranks the names in an order of its own, so that the same names refer to each other in opposite directions in two trees (one name being resolved in two trees at once is no cycle; reads in which the model enters the same setting of the same tree twice are C08's business and not compared); in (4) an Env layer may be Env(nil) or the zero Config (holds nothing, is skipped), and a probe demands that an EMPTY resolver answer means the same in the lone reference, in a text and under the three operators. (5) typed twin (typed.go): a value (null, int, uint, float, bool, strings, list, object) directly in the tree and reached by a setting that is exactly one reference (to the setting, through two references, to an Env value, to a resolver answer, as a list element); Unpack of both into 3 of 18 targets (pointers, numbers, pre-set string / interface{}, time.Duration and slices of it, *Config, map, an Unpacker) and one typed getter must have the same outcome. (6) late binding under Merge (latebind.go): a reference ${b} merged ONTO an object / list / primitive / reference / nothing, b (object, list, primitive) defined by the same operand, by the target before, or only later, then changed by a last merge: the setting reads as the current b. Non-trivial = the read involved at least one reference; distinct = distinct (world or forest + tree read, setting) / distinct data, lookup, typed or late-binding case."
+	return "(1) worlds of 1-6 settings (top-level and nested under s.) whose strings are expression trees of depth <= 3 (quick) / 5 over literals (incl. $ } : and blanks, with $ and } at the start, in the middle and at the END of a literal, so escape sequences sit at every position of a string including its last two characters; outside ${} a } is spelled } or $} at random, the respelled text being merged later), references (also with computed names), default/alternative/error operators and escapes, plus typed plain settings (int, uint, float, bool, object, list); every referenced name is placed on a random subset of the layers root / 0-2 Env configs / 0-2 resolvers (incl. zero resolvers), each layer's value naming the layer; the root is built by one merge or by several merges in random order with values overwritten later (late binding). Every expression setting is read through String(), Unpack into interface{} and string fields, and (nested ones) a Child handle, and compared with the model evaluator; resolver call order is monitored. (2) forests (forest.go): 3-6 small source configurations and 1-3 trees over 8 totally ordered names (2 plain values naming their tree, 6 expressions over the names before them, so no cycles); every tree is assembled by 2-6 merges in random order of Go data, of source configurations and of trees built earlier (Merge of a *Config: the same expression gets copied into several trees, in which the names it refers to have different values or are missing), 0-2 resolvers; every tree is read in turn with all the other trees as Env configurations: each setting through String(), Unpack into interface{} / string fields, a Child handle, and the whole tree through one Unpack into a map, compared with an evaluator that expands every expression against the tree it lives in, then the Env configurations most recently added first, then the resolvers. (3) expansion results are data (data.go): one setting built from a template (comma list, bracket list, nested list, object, object of list, plain text, bare) around a carrier that brings a marker text such as ${x}, ${x:oops}, ${x:+oops}, ${x:?oops} (alone or inside a text that is a list itself) into the RESULT of the expansion: an escape in the setting itself, a plain string of the tree, a setting whose own expansion yields the marker, an Env value (Env built without VarExp), a resolver answer under Noop/Env/DefaultConfig; x is defined (canary) or undefined; with or without an extra empty reference that makes the setting a string with expansions. Expected = the resulting text (known by construction) after the documented text->value step (parse.ValueWithConfig); read whole (Unpack into interface{}, whole configuration into a map) and element by element (String with idx, String with a path below the setting). (4) lookup order for names of 2-4 segments (pathblock.go): tree / 0-2 Env / 0-2 resolvers, every layer defines the name (value names the layer), holds a non-object (int, string, bool, float, reference to an int) at a proper prefix of the name, or nothing; read through ${n}, pre-${n}, ${n:d}, ${n:+a}, ${n:?m}, ${${nm}}; expected = the first layer in lookup order that defines the name, a layer with a non-object on the path does not define it. Round 4: in (1) one world in three also holds 1-2 expressions nested 1-60 levels below the root (dp.n.n...n.vJ), each with a twin holding the same expression at the top level (read through String, Unpack and a Child handle half way down, and compared with the twin), and every resolver of (1), (2) and (4) answers unknown names either with ErrMissing or with an error of its own (the older resolvers are asked all the same); in (2) every third tree ranks the names in an order of its own, so that the same names refer to each other in opposite directions in two trees (one name being resolved in two trees at once is no cycle; reads in which the model enters the same setting of the same tree twice are C08's business and not compared); in (4) an Env layer may be Env(nil) or the zero Config (holds nothing, is skipped), and a probe demands that an EMPTY resolver answer means the same in the lone reference, in a text and under the three operators. (5) typed twin (typed.go): a value (null, int, uint, float, bool, strings, list, object) directly in the tree and reached by a setting that is exactly one reference (to the setting, through two references, to an Env value, to a resolver answer, as a list element); Unpack of both into 3 of 18 targets (pointers, numbers, pre-set string / interface{}, time.Duration and slices of it, *Config, map, an Unpacker) and one typed getter must have the same outcome. (6) late binding under Merge (latebind.go): a reference ${b} merged ONTO an object / list / primitive / reference / nothing, b (object, list, primitive) defined by the same operand, by the target before, or only later, then changed by a last merge: the setting reads as the current b. Round 5: (2) is run twice per case, the second time as a RELAY forest: 3-4 trees over few names (one plain value, four expressions), every tree ranking the names in an order of its own and holding about half of them, so that a read is relayed through several Env configurations and the same name is resolved in two of them at once; general forests have up to 4 trees, every second one with an order of its own, one in three thin. In (1) settings below s. are also read through the child configurations handed out by Unpack: a *Config struct field (a view of the setting), and the same field after a second and a third Unpack of an overlay into the same struct (a private copy of the view) - getter and Unpack, with the Env configurations and resolvers of the world. Non-trivial = the read involved at least one reference; distinct = distinct (world or forest + tree read, setting) / distinct data, lookup, typed or late-binding case."
 }
 
 func (check) Assumptions() []string {
@@ -245,7 +245,8 @@ func (check) Run(seed int64, tier string, idx int, verbose bool) harness.Result 
 	res := harness.NewR(idx)
 	runWorld(res, rand.New(rand.NewSource(harness.Mix(seed, "C02", idx))), tier, idx, verbose)
 	// second workload: expressions copied into several trees (forest.go)
-	runForest(res, rand.New(rand.NewSource(harness.Mix(seed, "C02-forest", idx))), tier, idx, verbose)
+	runForest(res, rand.New(rand.NewSource(harness.Mix(seed, "C02-forest", idx))), tier, idx, verbose, false)
+	runForest(res, rand.New(rand.NewSource(harness.Mix(seed, "C02-relay", idx))), tier, idx, verbose, true)
 	// third workload: expansion results are data (data.go)
 	runData(res, rand.New(rand.NewSource(harness.Mix(seed, "C02-data", idx))), idx, verbose)
 	// fourth workload: non-objects on the path of a name in an earlier layer (pathblock.go)
@@ -452,10 +453,37 @@ func compare(res *harness.R, w *model.World, b *vx.Built, k string, s *model.Set
 			}
 		}
 		if strings.HasPrefix(k, "s.") && !mres.Container {
+			rest := strings.TrimPrefix(k, "s.")
 			ch, cerr := b.C.Child("s", -1, b.Opts...)
 			if cerr == nil {
-				str, err := ch.String(strings.TrimPrefix(k, "s."), -1, b.Opts...)
+				str, err := ch.String(rest, -1, b.Opts...)
 				reads = append(reads, reading{"Child(s).String()", str, err})
+			}
+			// child configurations handed out by Unpack: a *Config field is a
+			// view of the setting; a second Unpack (of an overlay bringing one
+			// more plain setting) into the same struct merges into a private
+			// copy of the view, a third one into that copy. The handle still
+			// is a part of the tree it was taken from.
+			var target struct {
+				S *ucfg.Config `config:"s"`
+			}
+			if uerr := b.C.Unpack(&target, b.Opts...); uerr == nil && target.S != nil {
+				str, err := target.S.String(rest, -1, b.Opts...)
+				reads = append(reads, reading{"*Config field.String()", str, err})
+				for i, how := range []string{"*Config field after a second Unpack", "*Config field after a third Unpack"} {
+					overlay, oerr := ucfg.NewFrom(map[string]interface{}{"s": map[string]interface{}{fmt.Sprintf("extra%d", i): "x"}}, vx.BaseOpts...)
+					if oerr != nil || overlay.Unpack(&target, vx.BaseOpts...) != nil || target.S == nil {
+						break
+					}
+					if x, xerr := target.S.String(fmt.Sprintf("extra%d", i), -1); xerr != nil || x != "x" {
+						reads = append(reads, reading{how + ": the setting brought by the overlay", x, xerr})
+						break
+					}
+					str, err := target.S.String(rest, -1, b.Opts...)
+					reads = append(reads, reading{how + ".String()", str, err})
+					v, err := vx.ReadField(target.S, rest, nil, b.Opts)
+					reads = append(reads, reading{how + ".Unpack(interface{})", v, err})
+				}
 			}
 		}
 	})
@@ -470,6 +498,24 @@ func compare(res *harness.R, w *model.World, b *vx.Built, k string, s *model.Set
 	}
 	for _, rd := range reads {
 		res.SetAdd("read_path", rd.how)
+		// the handles handed out by Unpack are read after the tree itself and
+		// its Child handle agreed with the model: a deviation is theirs
+		sg := func(sig string) string {
+			switch {
+			case strings.HasPrefix(rd.how, "*Config field after"):
+				return "config-field-handle-merged-by-a-later-unpack-not-read-as-part-of-its-tree"
+			case strings.HasPrefix(rd.how, "*Config field"):
+				return "config-field-handle-not-read-as-part-of-its-tree"
+			}
+			return sig
+		}
+		if strings.HasSuffix(rd.how, "overlay") {
+			res.Violate("config-field-handle-lost-the-setting-of-the-overlay", "%s: %#v, %v; %s", rd.how, rd.val, rd.err, desc)
+			return
+		}
+		if strings.HasPrefix(rd.how, "*Config field after") {
+			res.Ev("reads_through_a_config_field_merged_by_a_later_unpack", 1)
+		}
 		if verbose {
 			fmt.Printf("%s %s -> %#v err=%v (model: %s %#v)\n", k, rd.how, rd.val, rd.err, cls, want)
 		}
@@ -479,15 +525,15 @@ func compare(res *harness.R, w *model.World, b *vx.Built, k string, s *model.Set
 				if fmt.Sprint(rd.val) == "" || rd.val == nil {
 					got = "silent-empty"
 				}
-				res.Violate(sigFor(w, s, cls, got), "%s of %q returned %#v without error, model says %s (%s); %s", rd.how, k, rd.val, cls, mres.Msg, desc)
+				res.Violate(sg(sigFor(w, s, cls, got)), "%s of %q returned %#v without error, model says %s (%s); %s", rd.how, k, rd.val, cls, mres.Msg, desc)
 				return
 			}
 			if cls == "cyclic" && !vx.IsCyclicErr(rd.err) {
-				res.Violate("cyclic-error-not-identifiable", "%s of %q failed with %v, expected a cyclic reference error; %s", rd.how, k, rd.err, desc)
+				res.Violate(sg("cyclic-error-not-identifiable"), "%s of %q failed with %v, expected a cyclic reference error; %s", rd.how, k, rd.err, desc)
 				return
 			}
 			if cls == "error-operator" && !vx.MentionsMsg(rd.err, mres.Msg) {
-				res.Violate("error-operator-message-lost", "%s of %q failed with %v, expected the message %q; %s", rd.how, k, rd.err, mres.Msg, desc)
+				res.Violate(sg("error-operator-message-lost"), "%s of %q failed with %v, expected the message %q; %s", rd.how, k, rd.err, mres.Msg, desc)
 				return
 			}
 			continue
@@ -497,29 +543,29 @@ func compare(res *harness.R, w *model.World, b *vx.Built, k string, s *model.Set
 			if repeated(s.Ex) {
 				sig = "resolvable-reference-fails"
 			}
-			res.Violate(sig, "%s of %q failed with %v, model says %#v; %s", rd.how, k, rd.err, want, desc)
+			res.Violate(sg(sig), "%s of %q failed with %v, model says %#v; %s", rd.how, k, rd.err, want, desc)
 			return
 		}
-		switch rd.how {
-		case "Unpack(interface{})":
+		switch {
+		case strings.HasSuffix(rd.how, "Unpack(interface{})"):
 			if model.CanonIfc(rd.val) != model.CanonIfc(want) {
-				res.Violate(valueSig(w, s, cls, fmt.Sprint(rd.val), wantStr), "%s of %q = %s, model %s (text %q); %s", rd.how, k, model.CanonIfc(rd.val), model.CanonIfc(want), wantStr, desc)
+				res.Violate(sg(valueSig(w, s, cls, fmt.Sprint(rd.val), wantStr)), "%s of %q = %s, model %s (text %q); %s", rd.how, k, model.CanonIfc(rd.val), model.CanonIfc(want), wantStr, desc)
 				return
 			}
 			if s.Ex.IsSingleRef() && typeClass(rd.val) != typeClass(want) {
-				res.Violate("single-reference-loses-type", "%s of %q has type %T, the referenced value is %T; %s", rd.how, k, rd.val, want, desc)
+				res.Violate(sg("single-reference-loses-type"), "%s of %q has type %T, the referenced value is %T; %s", rd.how, k, rd.val, want, desc)
 				return
 			}
 		default:
 			got := rd.val.(string)
 			if vx.ParseNeutral(wantStr) || !s.Ex.HasVar() {
 				if got != wantStr {
-					res.Violate(valueSig(w, s, cls, got, wantStr), "%s of %q = %q, model %q; %s", rd.how, k, got, wantStr, desc)
+					res.Violate(sg(valueSig(w, s, cls, got, wantStr)), "%s of %q = %q, model %q; %s", rd.how, k, got, wantStr, desc)
 					return
 				}
 				res.Ev("compared_parse_neutral", 1)
 			} else if got != wantStr && got != model.PlainString(canonPrim(want)) && model.CanonIfc(vx.ExpectText(got)) != model.CanonIfc(want) {
-				res.Violate(valueSig(w, s, cls, got, wantStr), "%s of %q = %q, model text %q (value %s); %s", rd.how, k, got, wantStr, model.CanonIfc(want), desc)
+				res.Violate(sg(valueSig(w, s, cls, got, wantStr)), "%s of %q = %q, model text %q (value %s); %s", rd.how, k, got, wantStr, model.CanonIfc(want), desc)
 				return
 			}
 		}
